@@ -324,6 +324,15 @@ func (st *e2State) analyse(fn *Func) {
 			if isBuiltinCall(info, pp, "len") {
 				return true
 			}
+			// handed straight to a function outside the module: the same as going through a
+			// local first (x := f(); ext(x)), which is judged by what comes back, not here
+			if cf := calleeOf(info, pp); cf != nil && cf.Pkg() != nil && !strings.HasPrefix(cf.Pkg().Path(), modPath) {
+				for _, a := range pp.Args {
+					if ast.Unparen(a) == ast.Expr(call) {
+						return true
+					}
+				}
+			}
 		}
 		why, ok := "", false
 		for k, w := range un {
@@ -1179,7 +1188,37 @@ func (st *e2State) judgeStability(fn *Func, src taintSrc) {
 						}
 					}
 					derived := ""
+					// a comparator that (also) orders the elements themselves separates any two
+					// distinct elements: nothing is left to the input order
+					elemOrdered := false
 					ast.Inspect(lit.Body, func(k ast.Node) bool {
+						be, ok := k.(*ast.BinaryExpr)
+						if !ok || (be.Op != token.LSS && be.Op != token.GTR && be.Op != token.LEQ && be.Op != token.GEQ) {
+							return true
+						}
+						isElem := func(e ast.Expr) bool {
+							e = ast.Unparen(e)
+							if c, ok := e.(*ast.CallExpr); ok && len(c.Args) == 1 {
+								if tv, ok := info.Types[c.Fun]; ok && tv.IsType() {
+									e = ast.Unparen(c.Args[0])
+								}
+							}
+							ix, ok := e.(*ast.IndexExpr)
+							if !ok || pathOf(info, ix.X) != src.path {
+								return false
+							}
+							id, ok := ast.Unparen(ix.Index).(*ast.Ident)
+							return ok && params[info.ObjectOf(id)]
+						}
+						if isElem(be.X) && isElem(be.Y) {
+							elemOrdered = true
+						}
+						return true
+					})
+					ast.Inspect(lit.Body, func(k ast.Node) bool {
+						if elemOrdered {
+							return false
+						}
 						ix, ok := k.(*ast.IndexExpr)
 						if !ok || derived != "" {
 							return derived == ""
